@@ -573,6 +573,16 @@ def op_meta(clazz_key, parent_ns, needs):
     return Op(f"ctx_meta:{clazz_key}:{parent_ns}", "ctx", fn, None, needs, (), "ctx")
 
 
+def op_ctx_reset():
+    """XmlContext.reset(): every cache is dropped; calls that are under way or follow behave as before."""
+
+    def fn(env, fault):
+        env.context.reset()
+        return None
+
+    return Op("ctx_reset:context", "ctx", fn, None, None, (), "ctx")
+
+
 def group_of(clazz_key):
     return clazz_key.split(".")[0] if clazz_key else "noclass"
 
@@ -663,6 +673,7 @@ def build_ops(gen_docs=None):
     for ck in ("m_ns.Child", "m_ns.Mid", "m_ns.Node"):
         for pns in (None, "urn:a", "urn:b"):
             ops.append(op_meta(ck, pns, None))
+    ops.append(op_ctx_reset())
     # the class each operation is about (None for class-less lookups)
     doc_ck = {}
     for table in (C.XML, C.XML_FILES, C.BAD_XML, gen_docs["xml"], C.JSON, C.BAD_JSON, gen_docs["json"]):
